@@ -38,7 +38,8 @@ Inductive case :=
 | CBlocks (outcomes : list Z)                        (* every module's real Begin/EndBlock at every height class: 0 = completed *)
 | CAttest (ops : list xop)
 | CSkyway (chains : Z) (ops : list yop)
-| CWorthy (cur new : list Z) (tcur tnew : Z) (res : Z). (* isNewSnapshotWorthy on equal-order snapshots: 0 not worthy / 1 worthy / 2 panic *)
+| CWorthy (cur new : list Z) (tcur tnew : Z) (res : Z)  (* isNewSnapshotWorthy on equal-order snapshots: 0 not worthy / 1 worthy / 2 panic *)
+| CGate (running : option semver) (required : option (option semver)) (outcome : Z). (* the real paloma BeginBlock: 0 completed / 2 panic *)
 
 Definition fees_eqb (a b : option (Z * Z * Z)) : bool :=
   option_eqb (fun x y => let '(a1, a2, a3) := x in let '(b1, b2, b3) := y in (a1 =? b1) && (a2 =? b2) && (a3 =? b3)) a b.
@@ -157,4 +158,5 @@ Definition check (c : case) : bool :=
     | WOk true => res =? 1
     | WDivByZero => res =? 2
     end
+  | CGate running required outcome => if gate_open running required then outcome =? 0 else outcome =? 2
   end.
